@@ -256,8 +256,9 @@ def make_init(init):
         recs = [dict(NULLC, nu=n) if n is not None else dict(NULLC) for n in ns]
         return objs, recs
     pnu, loss = init.get("pnu", 3), init.get("loss", False)
-    objs = {1: ad.parent(pnu), 2: ad.template(3, loss), 3: ad.template(2, loss), 4: None}
-    recs = [ad.parent_record(pnu), ad.template_record(3, loss), ad.template_record(2, loss), dict(NULLC)]
+    t2, t3 = init.get("tnu", (3, 2))
+    objs = {1: ad.parent(pnu), 2: ad.template(t2, loss), 3: ad.template(t3, loss), 4: None}
+    recs = [ad.parent_record(pnu), ad.template_record(t2, loss), ad.template_record(t3, loss), dict(NULLC)]
     return objs, recs
 
 
